@@ -164,7 +164,9 @@ class CSSStyleSheet(cssutils.stylesheets.StyleSheet):
         except BaseException:
             # raised from inside the parse (e.g. by the log in raising mode):
             # rules, namespaces and variables are only partly built
-            self._cssRules, self._namespaces, self._variables = old
+            # (the setter makes the old rules name this sheet again)
+            self.cssRules = old[0]
+            self._namespaces, self._variables = old[1:]
             raise
 
     def _parseCssText(self, cssText):  # noqa: C901
